@@ -263,6 +263,8 @@ func (e *Eval) applyContract(fr *Frame, k *Contract, pkg *ssa.Package, pnames []
 		c.Assert(implies(cur, env.evalBool(ex)))
 	}
 	post := st.Clone()
+	e.curSt = post
+	oldTop, newTop := e.bumpTop(post)
 	e.havocFrame(k, env, post, pre)
 	// results
 	var results []Val
@@ -271,7 +273,10 @@ func (e *Eval) applyContract(fr *Frame, k *Contract, pkg *ssa.Package, pnames []
 			rt := sig.Results().At(i).Type()
 			var rv Val
 			if k.Fresh && i == 0 {
-				rv = Val{T: e.freshRef(site + ".fresh")}
+				r := c.Fresh(site+".fresh", "Int")
+				c.Assert(and("(> "+r+" "+oldTop+")", "(<= "+r+" "+newTop+")"))
+				e.allocs = append(e.allocs, r)
+				rv = Val{T: r}
 			} else {
 				rv = e.havocVal(fmt.Sprintf("%s.r%d", site, i), rt, cur)
 			}
@@ -378,6 +383,13 @@ func (e *Eval) havocFrame(k *Contract, env *Env, post, pre *State) {
 			na := c.Fresh(comp+"@hvarr", fmt.Sprintf("(Array (_ BitVec 64) %s)", c.Sort(sl.Elem())))
 			c.Assert(fmt.Sprintf("(forall ((i (_ BitVec 64))) (! (=> (not (and (bvsle (s.off %s) i) (bvslt i (bvadd (s.off %s) (s.len %s))))) (= (select %s i) (select (select %s %s) i))) :pattern ((select %s i))))", tv.T, tv.T, tv.T, na, h, arr, na))
 			c.Set(post, comp, sto(h, arr, na))
+		case strings.HasPrefix(m, "arrays(") && strings.HasSuffix(m, ")"):
+			t := env.lookupType(m[7 : len(m)-1])
+			if t == nil {
+				c.Unsupported("modifies %s: unknown type", m)
+				continue
+			}
+			e.havocComp(post, e.elemComp(t))
 		case strings.HasPrefix(m, "maps(") && strings.HasSuffix(m, ")"):
 			// maps(map[K]V): every map of that type
 			ex, err := ParseSpecExpr(m[5 : len(m)-1])
@@ -392,8 +404,8 @@ func (e *Eval) havocFrame(k *Contract, env *Env, post, pre *State) {
 				continue
 			}
 			dom, val := e.mapComps(mt)
-			c.Havoc(post, dom)
-			c.Havoc(post, val)
+			e.havocComp(post, dom)
+			e.havocComp(post, val)
 		case strings.HasPrefix(m, "mapof(") && strings.HasSuffix(m, ")"):
 			// mapof(x.m): the content of that one map
 			ex, err := ParseSpecExpr(m[6 : len(m)-1])
@@ -411,7 +423,12 @@ func (e *Eval) havocFrame(k *Contract, env *Env, post, pre *State) {
 			d := c.Get(post, dom)
 			c.Set(post, dom, sto(d, tv.T, c.Fresh("hv.dom", fmt.Sprintf("(Array %s Bool)", c.Sort(mt.Key())))))
 			v := c.Get(post, val)
-			c.Set(post, val, sto(v, tv.T, c.Fresh("hv.val", fmt.Sprintf("(Array %s %s)", c.Sort(mt.Key()), c.Sort(mt.Elem())))))
+			nvv := c.Fresh("hv.val", fmt.Sprintf("(Array %s %s)", c.Sort(mt.Key()), c.Sort(mt.Elem())))
+			switch mt.Elem().Underlying().(type) {
+			case *types.Pointer, *types.Map, *types.Chan:
+				c.Assert(fmt.Sprintf("(forall ((k %s)) (! (<= (select %s k) %s) :pattern ((select %s k))))", c.Sort(mt.Key()), nvv, e.top(post), nvv))
+			}
+			c.Set(post, val, sto(v, tv.T, nvv))
 		case strings.HasPrefix(m, "type:"):
 			// type:T.f  -> whole field heap
 			parts := strings.SplitN(m[5:], ".", 2)
@@ -423,7 +440,7 @@ func (e *Eval) havocFrame(k *Contract, env *Env, post, pre *State) {
 			stt := t.Underlying().(*types.Struct)
 			for i := 0; i < stt.NumFields(); i++ {
 				if len(parts) == 1 || stt.Field(i).Name() == parts[1] {
-					c.Havoc(post, e.declField(t, i))
+					e.havocComp(post, e.declField(t, i))
 				}
 			}
 		default:
@@ -440,6 +457,7 @@ func (e *Eval) havocFrame(k *Contract, env *Env, post, pre *State) {
 			}
 			nv := c.Fresh("hv."+sanitize(m), c.Sort(a.Typ))
 			c.Assert(e.typeInv(a.Typ, nv))
+			e.noteVal(a.Typ, nv)
 			e.storeAddr(post, a, nv)
 		}
 	}
@@ -456,11 +474,14 @@ func (c *Ctx) compSortOr(comp, def string) string {
 // fresh value; components first used later resolve to the new epoch.
 func (e *Eval) havocAll(st *State) {
 	c := e.c
+	if _, ok := st.m["$top"]; !ok {
+		e.top(st)
+	}
 	for comp := range c.compSort {
 		if strings.HasPrefix(comp, "$") || strings.HasPrefix(comp, "L.") {
 			continue
 		}
-		c.Havoc(st, comp)
+		e.havocComp(st, comp)
 	}
 	c.nfresh++
 	st.epoch = c.nfresh
@@ -602,6 +623,8 @@ func (e *Eval) callParamFn(fr *Frame, cc *ssa.CallCommon, pname string, args []V
 		e.ghostCount(st, "$fncalls")
 		held := c.Get(st, "$held")
 		post := st.Clone()
+		e.curSt = post
+		e.bumpTop(post)
 		e.havocAll(post)
 		c.Set(post, "$held", held) // callback leaves the lock state unchanged (checked at call sites)
 		res := e.resultHavoc(site, sig, cur)
